@@ -32,7 +32,7 @@ def runGen (j : Json) : List String :=
   | "isometry._b" => [toString (isometry.b (i 0) (i 1))]
   | "isometry._k_s" => [toString (isometry.k_s (i 0) (i 1))]
   | "isometry._cnot_count_estimate_ccd" => [toString (isometry.cnot_count_estimate_ccd (i 0) (i 1))]
-  | "lowrank._default_partition" => [" ".intercalate ((lowrank.default_partition (i 0)).map toString)]
+  | "lowrank._default_partition" => ["[" ++ " ".intercalate ((lowrank.default_partition (i 0)).map toString) ++ "]"]
   | "entanglement._to_qubits" => [toString (entanglement.to_qubits (i 0))]
   | other => ["UNKNOWN-FN " ++ other]
 
